@@ -28,7 +28,7 @@ UTC = timezone.utc
 MENU = [
     ("SUMMARY", lambda: "text a", lambda: "text b"),
     ("DTSTART", lambda: datetime(2024, 5, 1, 10, 0, tzinfo=UTC), lambda: datetime(2024, 5, 1, 10, 0, 1, tzinfo=UTC)),
-    ("SEQUENCE", lambda: 1, lambda: 2),
+    ("SEQUENCE", lambda: 0, lambda: 1),
     ("RRULE", lambda: vRecur(freq="DAILY", count=3), lambda: vRecur(freq="DAILY", count=4)),
     ("GEO", lambda: (1.5, 2.5), lambda: (1.5, 2.75)),
     ("CATEGORIES", lambda: ["a", "b"], lambda: ["a", "c"]),
